@@ -235,6 +235,98 @@ def _wire(cx, c, mine, log):
     c.get_pack_by_name = get_pack_by_name
 
 
+def ob_obsolete(cx):
+    """_save_pack_names(clear_obsolete_packs=True, obsolete_packs=...) as autopack / pack call it: the new pack list is
+    written BEFORE any pack is moved away, the obsolete_packs directory is emptied except for files of the packs that are
+    being obsoleted now, and exactly the packs to obsolete that are not there yet are moved (pack file and indices)."""
+    P, c, at_load, mine, disk = _mk(cx)
+    log = []
+    _wire(cx, c, mine, log)
+    EXTS = ["pack", "rix", "iix", "tmp"]
+    nfiles = cx.choose("n_old_files", 0, cx.p("nfiles"))
+    old_files = []
+    for i in range(nfiles):
+        stem = cx.str("old%d.stem" % i, 1, "xyz")
+        ext = cx.pick("old%d.ext" % i, EXTS)
+        for s, e, _f in old_files:
+            if e == ext:
+                cx.assume(s != stem)
+        old_files.append((stem, ext, stem + "." + ext))
+    nobs = cx.choose("n_obsolete", 0, 2)
+    obsolete = []
+    for i in range(nobs):
+        nm = cx.str("obs%d.name" % i, 1, "xyz")
+        for o in obsolete:
+            cx.assume(o.name != nm)
+        obsolete.append(_MovablePack(nm, log))
+    listing_fails = bool(cx.choose("obsolete_dir_missing", 0, 1)) and not old_files
+
+    class ObsT:
+        @staticmethod
+        def list_dir(d):
+            if listing_fails:
+                raise cx.real("breezy.transport").NoSuchFile("obsolete_packs")
+            return [f for _s, _e, f in old_files]
+
+        @staticmethod
+        def delete(f):
+            log.append(("delete_obsolete", f))
+    c.transport.clone = lambda sub: ObsT
+
+    class IdxT:
+        @staticmethod
+        def move(a, b):
+            log.append(("move_index", a, b))
+    c._index_transport = IdxT
+    c.chk_index = None
+    c._save_pack_names(clear_obsolete_packs=True, obsolete_packs=list(obsolete))
+    # 1. crash safety: nothing is deleted or moved before the new list is on disk
+    kinds = [e[0] for e in log]
+    cx.require("put_file" in kinds, "pack list not written")
+    first_destructive = min([i for i, k in enumerate(kinds) if k in ("delete_obsolete", "move_pack", "move_index")] or [len(kinds)])
+    cx.require(kinds.index("put_file") < first_destructive, "a pack was moved or deleted before the new pack list was written")
+    # 2. the old obsolete directory: files of packs being obsoleted now are preserved, everything else is deleted
+    deleted = [e[1] for e in log if e[0] == "delete_obsolete"]
+    for stem, ext, fname in old_files:
+        keep = any(cx.truth(stem == o.name) for o in obsolete)
+        was_deleted = any(d is fname for d in deleted)
+        cx.require(was_deleted == (not keep), "file %d of obsolete_packs was %s although its pack is %sbeing obsoleted now" %
+                   (old_files.index((stem, ext, fname)), "deleted" if was_deleted else "kept", "" if keep else "not "))
+    # 3. exactly the packs that are not in obsolete_packs yet are moved there, with their indices
+    for o in obsolete:
+        already = any(ext == "pack" and cx.truth(stem == o.name) for stem, ext, _f in old_files)
+        moved = [e for e in log if e[0] == "move_pack" and e[1] is o]
+        cx.require(len(moved) == (0 if already else 1), "pack to obsolete was moved %d time(s), already there: %r" % (len(moved), already))
+        if not already:
+            idx = [e for e in log if e[0] == "move_index" and cx.truth(e[1][:1] == o.name)]
+            cx.require(len(idx) == 4, "indices of an obsoleted pack not moved with it (%d)" % len(idx))
+            cx.cover("moved")
+        else:
+            cx.cover("already_obsolete")
+    if deleted:
+        cx.cover("cleared")
+    cx.observe("ops", [e[0] for e in log if e[0] in ("put_file", "delete_obsolete", "move_pack", "move_index")])
+
+
+class _MovablePack:
+    def __init__(self, name, log):
+        self.name = name
+        outer = self
+
+        class PT:
+            @staticmethod
+            def move(a, b):
+                log.append(("move_pack", outer, a, b))
+
+            @staticmethod
+            def mkdir(d):
+                pass
+        self.pack_transport = PT
+
+    def file_name(self):
+        return self.name + ".pack"
+
+
 def obligations(tier):
     q = tier == "quick"
     p = dict(n=2, alpha="abc", maxsize=9)
@@ -254,4 +346,9 @@ def obligations(tier):
            ["reloaded_and_saved"],
            bounds="reload_pack_names with pending changes, then others change the list again, then _save_pack_names: "
                   "<= 2 nodes in each of at-load / in-memory / disk-at-reload / disk-at-save"),
+        Ob("obsolete_packs", ob_obsolete, lift, dict(n=0 if q else 1, alpha="ab", maxsize=1, nfiles=2), to, 2 if q else 1,
+           ["moved", "already_obsolete", "cleared"],
+           bounds="<= 2 files in obsolete_packs (symbolic 1-char stems over 'xyz', extensions pack/rix/iix/tmp), <= 2 packs "
+                  "to obsolete with symbolic names, obsolete_packs directory present or missing; %s" %
+                  ("empty pack collections" if q else "<= 1 node per collection")),
     ]
